@@ -70,9 +70,13 @@ def make(d, mode="w", normalize=None, inputs=None, **kwargs):
         obj.knotvector = inputs["kv0"]
     elif d["kind"] == "surface":
         inputs["kv0"], inputs["kv1"] = list(d["kv"][0]), list(d["kv"][1])
+        if inputs["kv1"] == inputs["kv0"]:
+            inputs["kv1"] = inputs["kv0"]          # one list for both directions, as a caller who has only one would pass it
         obj.knotvector_u, obj.knotvector_v = inputs["kv0"], inputs["kv1"]
     else:
         inputs["kv0"], inputs["kv1"], inputs["kv2"] = [list(k) for k in d["kv"]]
+        if inputs["kv1"] == inputs["kv0"]:
+            inputs["kv1"] = inputs["kv0"]
         obj.knotvector_u, obj.knotvector_v, obj.knotvector_w = inputs["kv0"], inputs["kv1"], inputs["kv2"]
     return obj
 
